@@ -6,6 +6,10 @@ BASE = "cd /repo && /venv/bin/python -m pytest -ra -q -p no:cacheprovider --time
 
 # id -> (engine, level, technique, level text, level note, design ref)
 CHECKS = {
+ "C08": ("LX", "exploration",
+         "bounded-exhaustive enumeration: all revolute chains of 1..3 joints over a 6-joint palette x link-frame and inertia schemes x joint-state lattice, windows of 4..7 joints, and arms through the Arm-level API, against an independent product-of-exponentials dynamics oracle",
+         "All 6^n joint sequences for n <= 3 x 4 link-frame schemes x 3 inertia schemes x {0,0.3,-1.2,pi/2}^n states, cyclic windows for n = 4..7, three/four arms: M symmetric positive definite and equal to sum J^T G J, gravity = gradient of potential, passivity and the Lagrange form of the velocity-product term (Richardson differences), term-by-term torque decomposition, forward/inverse round trips, energy drift under RK4 with step refinement, and agreement of every Arm-level implementation with the port.",
+         "Finite lattices (quick tier thinned deterministically as stated in the rule); revolute joints; mass pattern per inertia scheme fixed. Oracle identities validated against the vendored reference in the self-tests.", "DESIGN 4/C08"),
  "C13": ("LX", "exploration",
          "bounded-exhaustive enumeration over generated programs: the complete product of per-joint URDF variants for 1 and 2 moving joints, scheduled families for 3..8 joints with every fixed-joint placement pattern, loaded by the real loader and compared with an independent XML->kinematics interpreter",
          "The 5 bundled files plus 73 k (quick) / 195 k (thorough) generated single-chain URDFs: full product {origin full/no rpy/no xyz/omitted} x {axis x,z,-z,generic,omitted} x {revolute, continuous} x fixed-joint placements x world link x inertial data for n <= 2, rotating schedules for n = 3..8, half-turn spellings, continuous joints with effort/velocity-only limits; dof count, joint order and names, limits as written and FK at 5 joint vectors to 1e-6.",
